@@ -51,7 +51,7 @@ def execute(p, chooser):
             ex.shutdown()
             det.emit("ret", "shutdown", 0)
             # only the call that really performed the shutdown is the one the property speaks about
-            primary = any(th == me and op == "deleg.shutdown" for (th, op, _, _) in det.S.log[pos0:])
+            primary = any(th == me and op == "deleg.shutdown" for (th, op, _, _, _) in det.S.log[pos0:])
             if primary and obs["snap"] is None:
                 with det.atomic():
                     obs["snap"] = {"states": [f._state for (f, _, _, _) in m.fs],
@@ -102,7 +102,7 @@ def execute(p, chooser):
     return r, obs
 
 
-IGNORE_OPS = {"thread.exit", "F.done", "F.cancelled", "F.running"}
+IGNORE_OPS = {"thread.exit", "F.done", "F.cancelled", "F.running", "clock"}
 
 
 def encode(log):
@@ -111,7 +111,7 @@ def encode(log):
     ev = []
     bad = []
     lockcode = {"G": 0, "X": 1}
-    for (th, op, obj, val) in log:
+    for (th, op, obj, val, ts) in log:
         if th == "main":
             continue
         if th == "env":
@@ -164,7 +164,7 @@ def monitor(r, obs):
     snap = obs.get("snap")
     cancels = {}
     subs_after = 0
-    for i, (th, op, obj, val) in enumerate(r.log):
+    for i, (th, op, obj, val, ts) in enumerate(r.log):
         if op == "F.cancel" and obj and obj.startswith("d") and th.startswith("sh"):
             if snap is None or i < snap["log_pos"]:
                 cancels[obj] = cancels.get(obj, 0) + 1
